@@ -359,6 +359,8 @@ pub enum RetKind {
     ResultShort,
     /// `std::result::Result<String, String>`
     ResultStd,
+    /// `Result<String, std::string::String>` (a path inside the type arguments)
+    ResultPathArgs,
 }
 
 #[derive(Clone, Copy, Debug, PartialEq, Eq)]
